@@ -136,6 +136,7 @@ def run(ctx):
     pick += [s for s in scs if s["side"] and s["side"][0] in ("acc_release", "req_release") and s["end"] == "release" and not s["ops"]][:12]   # release collisions
     pick += [s for s in scs if "+" in s["end"] and len(s["ops"]) <= 1 and (not s["ops"] or s["ops"][0] == "echo")]                       # two terminal calls in sequence
     pick += [s for s in scs if s["reject"]]                                                                                               # rejections: AE title (source 1), local limit (source 3)
+    pick += [s for s in scs if s["acc"] == "abort_back"]                                                                                    # both applications abort at the same moment
     pick += [s for s in scs if s["acc"] == "notify_abort" and len(s["ops"]) <= 1 and not s["side"]]                                         # abort() from a notification handler during release
     obs, rec = run_scenarios(ctx, pick, ctx.seed)
     judge(ctx, obs, rec, "C06")
